@@ -116,7 +116,24 @@ def singular_families(rng, L):
     if len(out) > 8:
         keep = [out[0]] + [out[i] for i in rng.choice(np_range(1, len(out)), size=7, replace=False)]
         out = keep
-    return out
+    # zero divisors whose coefficients are not all equal (nothing about them survives a division by the largest coefficient exactly):
+    # k(1+e) with the non-axis unit vector e = (3a+4b)/5 or (5a+12b)/13, and products (1±e)·W with a small-integer W (annihilated by 1∓e)
+    E = L.basis_vectors_lst
+    extra = []
+    if len(pos) >= 2:
+        a, b = E[pos[0]], E[pos[1]]
+        extra.append(('k(1+e) non-axis', [int(x) for x in (5 * one + 3 * a + 4 * b).value]))
+        extra.append(('k(1+e) non-axis', [int(x) for x in (13 * one - 5 * a + 12 * b).value]))
+    for idx in range(1, N):
+        b = L._basis_blade(idx)
+        if int((b * b).value[0]) == 1:
+            W = common.mv(L, [int(x) for x in rng.integers(-3, 4, size=N)])
+            for M in ((one + b) * W, W * (one - b)):
+                v = [int(x) for x in M.value]
+                if any(v) and len(set(abs(x) for x in v if x)) > 1:
+                    extra.append(('zero-divisor product', v))
+            break
+    return out + extra
 
 
 def np_range(a, b):
